@@ -23,6 +23,10 @@ def pattern(name, g=G):
         return [STUBBORN]
     if name == 'first-stubborn':
         return [STUBBORN, OBEDIENT]
+    if name == 'stubborn-lag':
+        # ignores every signal it can, and is gone only 5 ms after SIGKILL was sent (kill(2) returns before the target has
+        # been torn down): a poll right after the SIGKILL still finds it running
+        return [Behaviour('stubborn-lag', {'*': ('ignore',)}, kill_latency=0.005)]
     if name == 'exit0':
         return [exits(0)]
     raise ValueError(name)
